@@ -90,7 +90,12 @@ pub fn tc_matches(obs: &Obs, tc: u64) -> bool {
 
 /// Compare all reference fields owned by one of `props` with the projection of the real frame.
 pub fn compare_fields(bytes: &[u8], r: &RefObs, frame: &Frame, props: &[u8], loc: &mut Local, oracle: &str) {
+    let mark = crate::common::unknown_variant_mark();
     let obs = project(frame);
+    if crate::common::unknown_variant_mark() != mark {
+        loc.inc("unjudged_unknown_variant");
+        return;
+    }
     let leaf = &r.layout.leaf;
     for rf in &r.fields {
         if rf.def.kind == Kind::Opaque {
